@@ -382,10 +382,16 @@ func c02Sync(c *Ctx) {
 		c.bad("pChunker.syncWith:in-sync", fn.Pos(), "syncWith never reports 'in sync'")
 	}
 	// the null-run: the skip-ahead amount is computed only behind both null tests
+	// the two sides by role, not by variable name: the current bucket entry is the pChunker's own
+	// field (sync), the previous one is any other IndexChunk (a local)
 	nullEq := func(side string) map[edge]bool {
 		return edgesWhere(fn, func(iff *ssa.If) (bool, bool) {
 			eqOnTrue, ok := equalEdge(iff, func(v ssa.Value) bool {
-				return hasOrigin(v, func(o string) bool { return o == "field:IndexChunk.ID" }) && strings.Contains(locKey(v), side)
+				if !hasOrigin(v, func(o string) bool { return o == "field:IndexChunk.ID" }) {
+					return false
+				}
+				isField := strings.Contains(locKey(v), ".sync")
+				return isField == (side == "sync")
 			}, originHas("field:NullChunk.ID"))
 			if !ok {
 				return false, false
